@@ -256,6 +256,16 @@ func TestCheck(t *testing.T) {
 		if _, err := run.LoadReplay(cfg.Replay, &c); err != nil {
 			t.Fatal(err)
 		}
+		var k int
+		if c.P2 != nil {
+			if n, _ := fmt.Sscanf(c.P2.Index, "symlinked data file scenario %d", &k); n == 1 {
+				rec.Eval()
+				if msg := symlinkDataCase(k); msg != "" {
+					rec.Fail("symlink", c, "", msg)
+				}
+				return
+			}
+		}
 		do(c)
 		return
 	}
@@ -276,6 +286,16 @@ func TestCheck(t *testing.T) {
 		c := scen.Case{Files: files, Slice: 1000, NRec: 24, GCreate: 2, GRepair: 1 + k%2, DoubleCheck: k%2 == 0, Bystanders: k >= 2,
 			Damage: []scen.Damage{{Op: "delete", File: k % 2}}}
 		do(Case{P2: &c})
+	}
+	// a protected file that is a symbolic link to its damaged content
+	for k := 0; k < 4; k++ {
+		if cfg.Mine(320 + k) {
+			rec.Eval()
+			rec.Class("data-file-is-a-symbolic-link")
+			if msg := symlinkDataCase(k); msg != "" {
+				rec.Fail("symlink", Case{P2: &scen.Case{Index: fmt.Sprintf("symlinked data file scenario %d (fixed case)", k)}}, "", msg)
+			}
+		}
 	}
 	// a 2 MiB file whose second MiB is all zero is damaged and rewritten (exact multiples of 1 MiB / 64 KiB)
 	if cfg.Mine(310) {
